@@ -266,12 +266,16 @@ fn run_op(cache: &Cache, op: Op) -> Option<String> {
             Err(e) => show_err(&*e),
         },
         Op::Into(o, n) => {
-            let mut v = Vec::new();
+            // the destination already holds bytes: the contract is to APPEND `size` bytes (callers gather
+            // several ranges into one buffer)
+            const PREFIX: [u8; 5] = [0xAA, 0x55, 0x00, 0xFF, 0x42];
+            let mut v = PREFIX.to_vec();
             BYPASS_GATE.with(|b| b.set(true));
             let r = cache.read_bytes_into(&mut v, o, n as usize);
             BYPASS_GATE.with(|b| b.set(false));
             match r {
-                Ok(()) => show_bytes(&v),
+                Ok(()) if v.len() >= PREFIX.len() && v[..PREFIX.len()] == PREFIX => show_bytes(&v[PREFIX.len()..]),
+                Ok(()) => format!("clobbered {}", v.len()),
                 Err(e) => show_err(&*e),
             }
         }
